@@ -27,6 +27,7 @@ PAIRS = {
     "d2": dict(short_flags="", short_args="", env=[]),
     "d3": dict(short_flags="", short_args="", env=[]),
     "d4": dict(short_flags="q", short_args="s", env=["VERIF_D4"]),
+    "d5": dict(short_flags="lz", short_args="t", env=[]),
 }
 
 
